@@ -753,9 +753,15 @@ pub fn c09(ctx: &Ctx, rep: &mut Report) {
             check_policy_formulas(&mut rng, rep, if ctx.miri { 50 } else { 2000 }, ctx, idx);
         }
         let fmt = if idx % 2 == 0 { Fmt::Fasta } else { Fmt::Fastq };
-        let cap = rng.range(3, 64);
+        let mut cap = rng.range(3, 64);
         // long inputs whose records all fit: growth must never happen
         let long = idx % 97 == 5 && !ctx.miri;
+        // the same record extents (cap-2 .. cap+2, 2cap+-1) around realistic capacities, powers of two included
+        let big_cap = !long && !ctx.miri && rng.chance(1, 150);
+        if big_cap {
+            cap = *rng.pick(&[4096usize, 65_535, 65_536, 65_537, 131_072, 1 << 18]);
+            rep.count("histories_with_capacity_4k_to_256k");
+        }
         let bytes = if long {
             let mut b = vec![];
             let nrec = 1000 * cap / 8;
@@ -785,7 +791,7 @@ pub fn c09(ctx: &Ctx, rep: &mut Report) {
             }
             b
         } else {
-            c09_input(&mut rng, fmt, cap, ctx.shard, if ctx.miri { 4 } else { 30 })
+            c09_input(&mut rng, fmt, cap, ctx.shard, if ctx.miri { 4 } else if big_cap { 6 } else { 30 })
         };
         let r = fmt.reference(&bytes);
         if r.ambiguous() || r.has_err() {
@@ -800,6 +806,17 @@ pub fn c09(ctx: &Ctx, rep: &mut Report) {
             // must be adopted whatever its distance from the current capacity
             rep.count("policies_with_growth_step_beyond_16mib");
             PolSpec::JumpTo(cap + (1 << 24) + *rng.pick(&[1usize, 2, 4096, 1 << 20, 1 << 24, (1 << 25) + 3]))
+        } else if big_cap {
+            // (no constant-step policies here: 10^5 reallocations of a 100 KiB buffer are legitimate but
+            // would only burn the time budget, see gen::tame_policy)
+            match rng.below(6) {
+                0 => PolSpec::Std,
+                1 => PolSpec::DoubleUntil(1 << 20),
+                2 => PolSpec::DoubleUntilLimited(1 << 16, cap + rng.below(2 * cap)),
+                3 => PolSpec::RefuseFirst(1 + rng.below(2), Box::new(PolSpec::Std)),
+                4 => PolSpec::Times(3),
+                _ => PolSpec::RefuseAlways,
+            }
         } else {
             match rng.below(5) {
                 0 => PolSpec::RefuseFirst(1 + rng.below(2), Box::new(PolSpec::PlusOne)),
